@@ -637,7 +637,19 @@ func multiKeyCase(r *rng) MalType {
 	pickOwn := func() MalType { return own[r.intn(len(own))] }
 	q := func(v MalType) MalType { return call1("quote", v) }
 	hm := q(HashMap{Val: m})
-	switch r.intn(7) {
+	switch r.intn(9) {
+	case 7, 8:
+		// assoc on a VECTOR with several index / value pairs; every other time the last index has no value (an error,
+		// never a silently dropped pair)
+		v := q(vc(1, 2, 3))
+		args := []MalType{v, r.intn(3), kw("a"), r.intn(3), kw("b")}
+		if r.chance(1, 3) {
+			args = append(args, r.intn(3), kw("c"))
+		}
+		if r.chance(1, 2) {
+			args = args[:len(args)-1]
+		}
+		return call1("assoc", args...)
 	case 0:
 		return call1("dissoc", hm, pickOwn(), pickOwn())
 	case 1:
